@@ -26,7 +26,7 @@ instance (r : Region) (a : Nat) : Decidable (r.contains a) := by unfold Region.c
 /-- `impl_is_in_same_sandbox(p1, p2)` of the mask-based backends: equal high bits -/
 def sameSbx (k a b : Nat) : Bool := a / 2 ^ k == b / 2 ^ k
 
-/-- which arithmetic form (`+`/`-` check for null first; `[]` does not) -/
+/-- which arithmetic form (`+`, `-` and `[]`; all three abort on a null base) -/
 inductive ArithForm | add | sub | index
 deriving DecidableEq, Repr
 
@@ -34,7 +34,7 @@ deriving DecidableEq, Repr
 exactly as coded: `raw_rhs` is converted to `size_t` (mod 2^64), the product and the sum wrap
 mod 2^64.  `s` is `sizeof(tainted_volatile<T>)`, the guest size of the pointee. -/
 def ptrArith (k : Nat) (f : ArithForm) (p : Nat) (n : Int) (s : Nat) : Option Nat :=
-  if f ≠ .index ∧ p = 0 then none else
+  if p = 0 then none else
   let nU : Nat := (n % (W64 : Int)).toNat
   let d : Nat := (nU * s) % W64
   let t : Nat := if f = .sub then (p + W64 - d) % W64 else (p + d) % W64
@@ -50,7 +50,7 @@ deriving DecidableEq, Repr
 
 /-- Each form as rlbox defines it: compound assignment, `++`/`--` through `+`/`-` and the wrapper's
 assignment (`this_ref = this_ref op rhs`), post-forms return the old value, `p[n]`/`&p[n]` through
-the unchecked-null index arithmetic.  Result: (value of the expression, new value of `p`). -/
+the index arithmetic.  Result: (value of the expression, new value of `p`). -/
 def ptrForm (k : Nat) (form : PtrForm) (p : Nat) (n : Int) (s : Nat) : Option (Nat × Nat) :=
   match form with
   | .add     => (ptrArith k .add p n s).map fun t => (t, p)
